@@ -19,6 +19,12 @@ const KINDS: &[(&str, &str)] = &[
     ("promises", "(force (delay (+ i 1)))"),
     ("quasiquote", "`(a ,i #(b ,i))"),
     ("failures-caught-at-top", "(vector i (list i))"),
+    // bulk builtins allocate many cells per instruction, in bursts of irregular size (the collector is polled per instruction count)
+    ("bulk-vector->list", "(vector->list (make-vector (modulo (quotient (* i i) 13) 300) i))"),
+    ("bulk-string->list", "(string->list (make-string (modulo (quotient (* i i) 11) 300) #\\a))"),
+    ("bulk-append", "(append (vector->list (make-vector (modulo (quotient (* i i) 7) 200) i)) (list i))"),
+    ("bulk-apply", "(apply list (vector->list (make-vector (modulo (quotient (* i i) 17) 100) i)))"),
+    ("bulk-reverse-map", "(reverse (map (lambda (x) (cons x i)) (vector->list (make-vector (modulo (quotient (* i i) 19) 150) i))))"),
     ("mixed", "(list (make-vector 2 i) (lambda () i) (number->string i) `(q ,i) (call/cc (lambda (k) (cons k i))))"),
 ];
 
@@ -94,7 +100,8 @@ pub fn run(ctx: &Ctx) -> i32 {
         |_, acc, i| {
             let (k, live, top) = cells[i as usize];
             beat(&format!("growth {} live={} toplevel={}", KINDS[k].0, live, top));
-            let scale = if top { 10 } else { 1 };
+            // bulk kinds allocate ~100 cells per iteration: a fifth of the iterations is the same amount of garbage
+            let scale = if top { 10 } else if KINDS[k].0.starts_with("bulk-") { 5 } else { 1 };
             let small = measure(k, live, n / scale, top);
             let large = measure(k, live, 10 * n / scale, top);
             acc.evals += 2;
